@@ -40,6 +40,7 @@ UVS_BASES = [
     {"a": [0x41, 0x10000], "b": [0xFFFF], "c": [0x1F600]},       # with supplementary code points
 ]
 UVS_KEY = "public.unicodeVariationSequences"
+VF_ORDERS = ["ABSENT", [".notdef", "a", "b", "c"], ["c", "B", "b", "a"], ["zz", "b", ".notdef"]]
 MAX_VIOLS = 4
 
 
@@ -313,6 +314,7 @@ class C03(Property):
                         out.append([{"part": "xorder", "module": m, "flavour": fl, "glyphs": names,
                                      "first": f}])
                     out.append([{"part": "skip", "module": m, "flavour": fl, "glyphs": names}])
+                    out.append([{"part": "ndarg", "module": m, "flavour": fl, "glyphs": names}])
         cps = cp_subsets(b["cp_subset"])
         for m in ("ufoLib2", "defcon"):
             for fl in ("TTF", "OTF"):
@@ -323,6 +325,16 @@ class C03(Property):
             for fl in ("TTF", "OTF"):
                 for bi in range(len(UVS_BASES)):
                     out.append([{"part": "uvs", "module": m, "flavour": fl, "base": bi}])
+        # several variable fonts of one designspace (discrete axis): each follows ITS default source
+        for m in ("ufoLib2", "defcon"):
+            for fl in ("TTF", "CFF2"):
+                for ou in range(len(VF_ORDERS)):
+                    for oi in range(len(VF_ORDERS)):
+                        if m == "defcon" and ou != oi + 1:
+                            continue
+                        for nd in (True, False):
+                            out.append([{"part": "vforder", "module": m, "flavour": fl, "upright": ou,
+                                         "italic": oi, "notdef": nd}])
         return _interleave(out)
 
     def ops(self, h, b):
@@ -398,17 +410,28 @@ class C03(Property):
         return Result(viols, ctrs, "%012x" % acc, substates=calls, nontrivial=nontrivial)
 
     # ---- compile seam: glyph order ---------------------------------------------------------
-    def _order_case(self, names, stored, explicit, m, fl, viols, ctrs, sig, part, skip=None):
+    def _order_case(self, names, stored, explicit, m, fl, viols, ctrs, sig, part, skip=None, notdef_arg=None):
         lib = {"public.skipExportGlyphs": list(skip)} if skip else None
-        st_holder = []
+        st_holder, keep_alive = [], []
+        kw = {} if explicit is None else {"glyphOrder": list(explicit)}
 
         def make_font():
             f = build(names, stored, m, lib=lib)
             st_holder[:] = [stored_list(f, stored)]
+            if notdef_arg == "own":
+                kw["notdefGlyph"] = f[[n for n in names if n != ".notdef"][0]]
+            elif notdef_arg is not None:
+                # a glyph of ANOTHER font (a parts library), named '.notdef' or something else
+                other = B.build_font({"glyphs": {notdef_arg: {"width": 620, "contours": [B.box(60, 0, 560, 640)]}}}, m)
+                kw["notdefGlyph"] = other[notdef_arg]
+                keep_alive.append(other)  # a defcon glyph only holds a weak reference to its font
             return f
         exported = [n for n in names if not skip or n not in skip]
-        kw = {} if explicit is None else {"glyphOrder": list(explicit)}
-        tt = compile_reload(make_font, fl, exported, ctrs, **kw)
+        if notdef_arg is not None:
+            font0 = make_font()  # (fills kw["notdefGlyph"]; the font is compiled once)
+            tt = compile_reload(lambda: font0, fl, exported, ctrs, **kw)
+        else:
+            tt = compile_reload(make_font, fl, exported, ctrs, **kw)
         want = ref_order(exported, st_holder[0], explicit, True)
         got = tt.getGlyphOrder()
         ng = tt["maxp"].numGlyphs
@@ -425,6 +448,16 @@ class C03(Property):
         feat = {"seam": "compile", "flavour": fl, "listing": "stored" if explicit is None else "explicit"}
         if skip:
             feat["skip"] = True
+        if notdef_arg is not None:
+            feat["notdef_arg"] = notdef_arg if notdef_arg in ("own", ".notdef") else "other-name"
+            _bump(ctrs, "notdef_argument_compiles")
+            if ".notdef" not in exported:
+                _bump(ctrs, "notdef_argument_used")
+                # the supplied glyph is the font's '.notdef': its advance is the supplied glyph's
+                want_adv = 500 if notdef_arg == "own" else 620
+                if ".notdef" in got and tt["hmtx"][".notdef"][0] != want_adv and len(viols) < MAX_VIOLS:
+                    viols.append(violation("notdef-argument-not-used", dict(feat), module=m, glyphs=names,
+                                           expected=want_adv, observed=tt["hmtx"][".notdef"][0]))
         if got != want and len(viols) < MAX_VIOLS:
             viols.append(violation("glyph-order", dict(feat, why=classify_order(want, got)), part=part,
                                    module=m, glyphs=names, stored=stored, explicit=explicit, skip=skip,
@@ -465,6 +498,67 @@ class C03(Property):
                 nt += self._order_case(names, stored, e, m, fl, viols, ctrs, sig, "xorder")
                 n += 1
         return Result(viols, ctrs, digest(sig), substates=n, nontrivial=nt)
+
+    def _run_ndarg(self, h, b):
+        """`notdefGlyph=` argument: a source with or without its own '.notdef', the argument being a glyph
+        named '.notdef' of another font, a glyph with another name of another font, or a glyph of the
+        font itself."""
+        c = h[0]
+        names, m, fl = c["glyphs"], c["module"], c["flavour"]
+        viols, ctrs, sig, nt, n = [], {}, [], 0, 0
+        kinds = [".notdef", "_notdef.box"] + (["own"] if [x for x in names if x != ".notdef"] else [])
+        for kind in kinds:
+            for stored in ("ABSENT", ["c", "a"]):
+                nt += self._order_case(names, stored, None, m, fl, viols, ctrs, sig, "ndarg", notdef_arg=kind)
+                n += 1
+        return Result(viols, ctrs, digest(sig), substates=n, nontrivial=nt)
+
+    def _run_vforder(self, h, b):
+        import ufo2ft
+        c = h[0]
+        names = [n for n in UNIVERSE if c["notdef"] or n != ".notdef"]
+        stored = {0: VF_ORDERS[c["upright"]], 1: VF_ORDERS[c["italic"]]}
+
+        def master(weight, ital):
+            sp = order_spec(names, stored[ital])
+            for i, n in enumerate(sp["glyphs"]):
+                sp["glyphs"][n] = {"width": 500 + 100 * ital + weight // 10 + i,
+                                   "contours": [B.box(10, 0, 60 + weight // 10 + 20 * ital, 100 + i)]}
+                if n == "a":
+                    sp["glyphs"][n]["unicodes"] = [0x61]
+            sp["info"] = {"styleName": ("Italic" if ital else "Regular") + str(weight)}
+            return sp
+        ds = B.build_designspace(
+            [{"name": "Weight", "tag": "wght", "min": 400, "default": 400, "max": 700},
+             {"name": "Italic", "tag": "ital", "values": [0, 1], "default": 0}],
+            [{"spec": master(w, it), "location": {"Weight": w, "Italic": it}, "name": "m%d_%d" % (w, it)}
+             for it in (0, 1) for w in (400, 700)], module=c["module"])
+        fn = ufo2ft.compileVariableTTFs if c["flavour"] == "TTF" else ufo2ft.compileVariableCFF2s
+        fonts = fn(ds, useProductionNames=False)
+        viols, ctrs, sig = [], {"vf_order_fonts": 0}, []
+        feat = {"seam": "compile-variable", "flavour": c["flavour"]}
+        if len(fonts) != 2:
+            viols.append(violation("variable-font-count", feat, observed=sorted(fonts)))
+        seen = set()
+        for name, tt in sorted(fonts.items()):
+            buf = io.BytesIO()
+            tt.save(buf)
+            buf.seek(0)
+            tt = TTFont(buf)
+            ital = 1 if tt["hmtx"]["a"][0] >= 600 else 0
+            seen.add(ital)
+            st = None if stored[ital] == "ABSENT" else stored[ital]
+            want = ref_order(names, st, None, True)
+            got = tt.getGlyphOrder()
+            ctrs["vf_order_fonts"] += 1
+            if got != want:
+                viols.append(violation("glyph-order", dict(feat, why=classify_order(want, got), listing="stored",
+                                                           which="italic" if ital else "upright"),
+                                       module=c["module"], stored=stored, expected=want, observed=got))
+            sig.append((ital, got))
+        if seen != {0, 1}:
+            viols.append(violation("variable-font-count", feat, observed=sorted(fonts)))
+        return Result(viols, ctrs, digest(sig), substates=2, nontrivial=int(stored[0] != stored[1]))
 
     def _run_skip(self, h, b):
         c = h[0]
